@@ -11,10 +11,18 @@
      * (termination only) the canonical paths are finitely many ([universe])
        and the named directories nest to a finite depth ([depth_le]).
    Every theorem is about the current code ([d23 = false]); C19_D23_refuted is
-   about the code before the repair. *)
+   about the code before the repair.
+
+   The last group composes this model with Model.Runner (C03's mirror of
+   cli/src/main.rs and analysis_runner.rs) through
+   Model.IncludesRunner.file_library_user_inputs (FileLibrary::add_file):
+   "files that were only included never produce findings of their own" is
+   stated about what `main` displays, not only about the stored flag. *)
 From Coq Require Import ZArith Ascii String.
 From stdpp Require Import list strings.
+Require Model.Runner Spec.RunnerSpec.
 Require Import Model.Includes Spec.IncludesSpec Proofs.IncludesProofs.
+Require Import Model.IncludesRunner Proofs.IncludesRunnerProofs.
 
 (* no canonical path is read and parsed twice: every path handed to parse_file
    is canonical, and two positions of the read sequence holding paths with the
@@ -254,3 +262,181 @@ Theorem C19_dir_include_is_located :
             ps_reports s = [IncludeError (str "sub") (Some 0) 21 35].
 Proof. exact dir_include_is_located. Qed.
 Print Assumptions C19_dir_include_is_located.
+
+(* ------------------------------------------------------------------------ *)
+(* named files are user inputs: every argument order, every include graph    *)
+(* ------------------------------------------------------------------------ *)
+
+(* a path p given on the command line that is not a directory, with canonical
+   form c: c is a user input at the end of the run, c is read, every
+   FileLibrary entry for c carries the flag true, and unless c cannot be opened
+   it has such an entry whose file id is in FileLibrary::user_inputs.
+   [paths] is any list (so: whichever position p has in it, whichever other
+   arguments precede it), [content] is any function (so: whichever files
+   include c, named or not, before or after c's own stack entry is popped). *)
+Theorem C19_named_file_is_user_input :
+  forall (path : Type) (EqDecision0 : EqDecision path)
+         (canon : path -> option path) (is_dir is_file : path -> bool)
+         (read_dir : path -> option (list path)) (join : path -> path -> path)
+         (parent : path -> path) (file_name : path -> option path)
+         (ext_circom starts_dot has_sep : path -> bool) (content : path -> file_content path),
+    (forall p c, canon p = Some c -> canon c = Some c) ->
+    forall (dfuel fuel : nat) (paths libs : list path) (s : parse_state) (p c : path),
+      parse_files canon is_dir is_file read_dir join parent file_name ext_circom starts_dot has_sep content
+                  false dfuel fuel paths libs = Ok s ->
+      p ∈ paths -> is_dir p = false -> canon p = Some c ->
+      is_user_input (ps_stack s) c = true /\
+      c ∈ ps_read s /\
+      (forall (i : nat) (u : bool), ps_files s !! i = Some (c, u) -> u = true) /\
+      (content c <> Unreadable ->
+       exists i : nat, ps_files s !! i = Some (c, true) /\
+                       In (Z.of_nat i) (file_library_user_inputs (ps_files s))).
+Proof. exact @named_file_is_user_input. Qed.
+Print Assumptions C19_named_file_is_user_input.
+
+(* two runs on the same arguments in different orders (each with whatever fuel
+   let it finish): the same files are read, the FileLibrary holds the same
+   (file, is_user_input) entries, the stack answers is_user_input alike; only
+   the numbering of the files depends on the order *)
+Theorem C19_user_inputs_independent_of_argument_order :
+  forall (path : Type) (EqDecision0 : EqDecision path)
+         (canon : path -> option path) (is_dir is_file : path -> bool)
+         (read_dir : path -> option (list path)) (join : path -> path -> path)
+         (parent : path -> path) (file_name : path -> option path)
+         (ext_circom starts_dot has_sep : path -> bool) (content : path -> file_content path),
+    (forall p c, canon p = Some c -> canon c = Some c) ->
+    forall (dfuel fuel dfuel' fuel' : nat) (paths paths' libs : list path) (s s' : parse_state),
+      Permutation paths paths' ->
+      parse_files canon is_dir is_file read_dir join parent file_name ext_circom starts_dot has_sep content
+                  false dfuel fuel paths libs = Ok s ->
+      parse_files canon is_dir is_file read_dir join parent file_name ext_circom starts_dot has_sep content
+                  false dfuel' fuel' paths' libs = Ok s' ->
+      (forall c : path, c ∈ ps_read s <-> c ∈ ps_read s') /\
+      (forall (f : path) (u : bool), (f, u) ∈ ps_files s <-> (f, u) ∈ ps_files s') /\
+      (forall c : path, is_user_input (ps_stack s) c = is_user_input (ps_stack s') c).
+Proof. exact @user_inputs_order_independent. Qed.
+Print Assumptions C19_user_inputs_independent_of_argument_order.
+
+(* the FileLibrary, exactly: (f, u) is an entry iff f was read, could be
+   opened, and u says whether f is named *)
+Theorem C19_file_library_characterised :
+  forall (path : Type) (EqDecision0 : EqDecision path)
+         (canon : path -> option path) (is_dir is_file : path -> bool)
+         (read_dir : path -> option (list path)) (join : path -> path -> path)
+         (parent : path -> path) (file_name : path -> option path)
+         (ext_circom starts_dot has_sep : path -> bool) (content : path -> file_content path),
+    (forall p c, canon p = Some c -> canon c = Some c) ->
+    forall (dfuel fuel : nat) (paths libs : list path) (s : parse_state),
+      parse_files canon is_dir is_file read_dir join parent file_name ext_circom starts_dot has_sep content
+                  false dfuel fuel paths libs = Ok s ->
+      forall (f : path) (u : bool),
+        (f, u) ∈ ps_files s <->
+        f ∈ ps_read s /\ content f <> Unreadable /\
+        (u = true <-> named canon is_dir read_dir join ext_circom paths f).
+Proof. exact @files_characterised. Qed.
+Print Assumptions C19_file_library_characterised.
+
+(* ------------------------------------------------------------------------ *)
+(* composition with main (Model.Runner): included-only files produce no       *)
+(* findings of their own                                                      *)
+(* ------------------------------------------------------------------------ *)
+
+(* a report with at least one primary label, all of whose primary labels lie in
+   files of the FileLibrary for which is_user_input answers false: rejected by
+   filter_by_file applied to FileLibrary::user_inputs, hence by the filter
+   chain under every option set, hence neither on stdout nor in the SARIF file
+   of any run of main on any project with that user-input set (all
+   definitions, all analysis orders; no well-formedness premise) *)
+Theorem C19_included_only_report_never_displayed :
+  forall (path : Type) (EqDecision0 : EqDecision path)
+         (canon : path -> option path) (is_dir is_file : path -> bool)
+         (read_dir : path -> option (list path)) (join : path -> path -> path)
+         (parent : path -> path) (file_name : path -> option path)
+         (ext_circom starts_dot has_sep : path -> bool) (content : path -> file_content path),
+    (forall p c, canon p = Some c -> canon c = Some c) ->
+    forall (dfuel fuel : nat) (paths libs : list path) (s : parse_state) (r : Runner.report),
+      parse_files canon is_dir is_file read_dir join parent file_name ext_circom starts_dot has_sep content
+                  false dfuel fuel paths libs = Ok s ->
+      Runner.r_pfiles r <> [] ->
+      (forall z : Z, In z (Runner.r_pfiles r) ->
+                     exists (i : nat) (f : path) (u : bool),
+                       z = Z.of_nat i /\ ps_files s !! i = Some (f, u) /\
+                       is_user_input (ps_stack s) f = false) ->
+      Runner.filter_by_file r (file_library_user_inputs (ps_files s)) = false /\
+      (forall o : Runner.opts, Runner.passes_filters o (file_library_user_inputs (ps_files s)) r = false) /\
+      (forall (p : Runner.project) (o : Runner.opts) (order : list Runner.key),
+          Runner.p_user p = file_library_user_inputs (ps_files s) ->
+          ~ In r (Runner.res_shown (Runner.run_keys p o order)) /\
+          (forall (results : list Runner.report) (rules : list Runner.rule),
+              Runner.res_sarif (Runner.run_keys p o order) = Some (results, rules) -> ~ In r results)).
+Proof. exact @included_only_report_never_displayed. Qed.
+Print Assumptions C19_included_only_report_never_displayed.
+
+(* conversely the file filter lets through every report with a primary label
+   in a named file (so a named file that another named file includes keeps its
+   findings) *)
+Theorem C19_named_file_report_passes_file_filter :
+  forall (path : Type) (EqDecision0 : EqDecision path)
+         (canon : path -> option path) (is_dir is_file : path -> bool)
+         (read_dir : path -> option (list path)) (join : path -> path -> path)
+         (parent : path -> path) (file_name : path -> option path)
+         (ext_circom starts_dot has_sep : path -> bool) (content : path -> file_content path),
+    (forall p c, canon p = Some c -> canon c = Some c) ->
+    forall (dfuel fuel : nat) (paths libs : list path) (s : parse_state) (r : Runner.report)
+           (i : nat) (f : path) (u : bool),
+      parse_files canon is_dir is_file read_dir join parent file_name ext_circom starts_dot has_sep content
+                  false dfuel fuel paths libs = Ok s ->
+      In (Z.of_nat i) (Runner.r_pfiles r) -> ps_files s !! i = Some (f, u) ->
+      named canon is_dir read_dir join ext_circom paths f ->
+      Runner.filter_by_file r (file_library_user_inputs (ps_files s)) = true.
+Proof. exact @named_file_report_passes_file_filter. Qed.
+Print Assumptions C19_named_file_report_passes_file_filter.
+
+(* everything main displays was produced by the parser or for a definition
+   living in a named file, and is located nowhere (no primary label) or, at
+   least with one primary label, in a named file *)
+Theorem C19_displayed_findings_come_from_named_files :
+  forall (path : Type) (EqDecision0 : EqDecision path)
+         (canon : path -> option path) (is_dir is_file : path -> bool)
+         (read_dir : path -> option (list path)) (join : path -> path -> path)
+         (parent : path -> path) (file_name : path -> option path)
+         (ext_circom starts_dot has_sep : path -> bool) (content : path -> file_content path),
+    (forall p c, canon p = Some c -> canon c = Some c) ->
+    forall (dfuel fuel : nat) (paths libs : list path) (s : parse_state)
+           (p : Runner.project) (o : Runner.opts) (order : list Runner.key) (r : Runner.report),
+      parse_files canon is_dir is_file read_dir join parent file_name ext_circom starts_dot has_sep content
+                  false dfuel fuel paths libs = Ok s ->
+      Runner.p_user p = file_library_user_inputs (ps_files s) ->
+      RunnerSpec.wf_project p -> RunnerSpec.analysis_order p order ->
+      In r (Runner.res_shown (Runner.run_keys p o order)) ->
+      (In r (Runner.p_parse p) \/
+       exists (d : Runner.def) (i : nat) (f : path),
+         In d (Runner.p_defs p) /\ In r (RunnerSpec.produced_def d) /\
+         Runner.d_file d = Z.of_nat i /\ ps_files s !! i = Some (f, true) /\
+         named canon is_dir read_dir join ext_circom paths f) /\
+      (Runner.r_pfiles r = [] \/
+       exists (i : nat) (f : path),
+         In (Z.of_nat i) (Runner.r_pfiles r) /\ ps_files s !! i = Some (f, true) /\
+         named canon is_dir read_dir join ext_circom paths f).
+Proof. exact @displayed_findings_come_from_named_files. Qed.
+Print Assumptions C19_displayed_findings_come_from_named_files.
+
+(* the hypotheses are satisfiable and the conclusions not vacuous: main.circom
+   includes lib.circom and inc.circom, lib.circom and main.circom are named in
+   both orders.  Named first, lib.circom is first reached through main's
+   include entry and is a user input all the same; a finding located only in
+   inc.circom (file 1, is_user_input = false) is filtered, one that also has a
+   primary label in lib.circom (file 2) is not *)
+Example C19_argument_order_witness :
+  canon_idempotent_b ord_fs = true /\
+  exists s s' : parse_state,
+    run_project false ord_fs [str "lib.circom"; str "main.circom"] [] = Ok s /\
+    run_project false ord_fs [str "main.circom"; str "lib.circom"] [] = Ok s' /\
+    ps_files s = [(str "/r/main.circom", true); (str "/r/inc.circom", false); (str "/r/lib.circom", true)] /\
+    ps_files s' = [(str "/r/lib.circom", true); (str "/r/main.circom", true); (str "/r/inc.circom", false)] /\
+    file_library_user_inputs (ps_files s) = [0%Z; 2%Z] /\
+    file_library_user_inputs (ps_files s') = [0%Z; 1%Z] /\
+    is_user_input (ps_stack s) (str "/r/inc.circom") = false /\
+    Runner.filter_by_file ord_report_inc (file_library_user_inputs (ps_files s)) = false /\
+    Runner.filter_by_file ord_report_both (file_library_user_inputs (ps_files s)) = true.
+Proof. exact ord_witness. Qed.
